@@ -453,15 +453,16 @@ func (ex *Exec) typeTag(t types.Type) *Term {
 }
 
 func (ex *Exec) makeInterface(st *State, v Val, from types.Type, to types.Type) Val {
-	if v.Loc != nil && v.Loc.Kind == locCell {
-		unsupported("address of a local converted to an interface")
-	}
 	id := Fresh("iface", SInt)
 	ex.assume(st, Gt(id, Int(0)))
 	ex.assume(st, Eq(UF("typeof", SInt, id), ex.typeTag(from)))
 	for i, l := range Layout(from) {
 		ex.assume(st, Eq(UF("payload_"+heapKeyT(from)+"_"+sanitize(l.Path), l.Sort, id), v.L[i]))
 	}
+	if ex.ifaceVals == nil {
+		ex.ifaceVals = map[*Term]Val{}
+	}
+	ex.ifaceVals[id] = v
 	return Val{T: to, L: []*Term{id}}
 }
 
